@@ -706,7 +706,8 @@ Section Max.
     destruct (find _ files) as [f|]; [|reflexivity].
     assert (G0 : forall o1, r_max o1 = r_max o ->
       r_max (snd (fst (let o2 := init_partition o1 in
-                       let (o3, c3) := init_writer E o2 c in
+                       let (o3a, c3a) := init_writer E o2 c in
+                       let (o3, c3) := d48_step o3a c3a in
                        let (o4, c4) := push_from_cache E o3 c3 in
                        let '(o5, c5) := match write_blocks E (S (length (r_blocks o4))) 0 o4 c4 with
                                         | (ROk x, cx) => (x, cx)
@@ -718,7 +719,8 @@ Section Max.
          cbv zeta beta iota; apply G0; reflexivity. }
     intros o1 M1. cbv zeta.
     pose proof (ckc_init_partition o1) as [M2 _]. set (o2 := init_partition o1) in *.
-    pose proof (ckc_init_writer E o2 c) as [M3 _]. destruct (init_writer E o2 c) as [o3 c3]. cbn [fst] in M3.
+    pose proof (ckc_init_writer E o2 c) as [M3a _]. destruct (init_writer E o2 c) as [o3a c3a]. cbn [fst] in M3a.
+    pose proof (ckc_d48_step o3a c3a) as [M3 _]. destruct (d48_step o3a c3a) as [o3 c3]. cbn [fst] in M3.
     pose proof (ckc_push_from_cache E o3 c3) as [M4 _]. destruct (push_from_cache E o3 c3) as [o4 c4]. cbn [fst] in M4.
     pose proof (ckc_write_blocks E (S (length (r_blocks o4))) 0 o4 c4) as [M5 _].
     destruct (write_blocks E (S (length (r_blocks o4))) 0 o4 c4) as [[o5|o5] c5]; cbn [fst res_obj] in M5.
